@@ -721,6 +721,10 @@ impl ActionContext for &Server {
         self.database.graph().new_patch()
     }
 
+    fn key_exists(&self, key: &Key) -> bool {
+        self.database.graph().maybe_key(key).is_some()
+    }
+
     fn llm_query(&self, prompt: String, model: &Model) -> String {
         if Path::new("./.iwe").exists() {
             fs::write("./.iwe/prompt.md", &prompt).expect("Unable to write file");
